@@ -30,6 +30,8 @@ import ChessVerif.Props.C06
 import ChessVerif.Props.C01
 import ChessVerif.Proofs.SearchRealLaws
 import ChessVerif.Proofs.SearchRealScore
+import ChessVerif.Proofs.SearchRealFuel
+import ChessVerif.Props.C06fuel
 
 namespace ChessVerif.Props.C06real
 open ChessVerif Search SearchReal
@@ -400,5 +402,157 @@ example (K : Keys) (L : Limits) (clock : Clock) (hd : 1 ≤ L.depth) :
     not an admissible ranker state: the invariant is a genuine restriction. -/
 example : ¬ TTMovesOK #[{ Model.Transp.Bucket.zero with e0 := { Model.Transp.Entry.zero with move := 0x8000#16 } }] :=
   fun h => absurd (h 0 0) (by decide)
+
+/-! ### TERMINATION of the real search: fuel sufficiency
+
+  `Props/C06fuel.lean` proves for every component record satisfying `Laws` + `FuelLaws` that `alphaBeta`
+  called at `ply` never runs out of fuel when `fuel ≥ 112 - ply`, `quiescence` when `fuel ≥ 49`, `go` when
+  `fuel ≥ 112` (63 nested `alphaBeta` levels — every call is made at `ply + 1` and `ply ≥ MaxPlies - 1`
+  goes to quiescence, so nothing about `lmr` / `nmpDepth` / `iir` is needed — plus 48 nested quiescence
+  levels — every quiescence move is a capture or promotion and decreases men + pawns — plus 1).  Fuel is
+  handed down per nesting level, so this is the statement that the recursion of the real search has
+  bounded depth: THE SEARCH ALGORITHM TERMINATES ON EVERY REQUEST; the model needs no more than 112
+  nested calls (the correspondence driver passes 10^9 and has never reported `fuelOut`).  It is also
+  what C13's environment assumption E1 ("the search returns / prints finitely many info lines") rests
+  on for requests the search may complete by itself.
+
+  (Depth-sensitive refinement: the real reductions keep every child depth in `[0, d - 1]` — `real_depthLaws_hold` —
+  so a node of depth `d` needs `d + 49` and a request with depth limit `D` needs `min D 63 + 49`.)
+
+  The one new law, `pick_len` — the picker yields at most `len(gen)` moves, so the `Next()` counter of
+  the move loop is not what runs out — is PROVED for the staged picker as search.go drives it
+  (`real_picker_yields_at_most_gen`: a counting invariant along `PReach`; the hash move's duplicate in the
+  generated part carries the sentinel weight and is never selected).  The driver-level theorems carry
+  the run-level hypothesis of the other `…_real` theorems, `ttOut = false` (the ten-failure bound of an
+  aspiration chain rests on results within `±Inf`); with the null-move guard there is none. -/
+
+/-- **the real picker yields at most `len(gen)` moves** on a valid board, for every hash-move word the
+    table can hold, however the ranker changes and whatever weights are written between two calls. -/
+theorem real_picker_yields_at_most_gen {b : Board} {hm : Move} (hv : Board.valid b = true) (hhm : hm < 32768)
+    {st : Picker.PSt} {ys : List Move} (hr : Proofs.SearchRealPicker.PReach b hm st ys) :
+    ys.length ≤ (MoveGen.gen b).length := Proofs.SearchRealFuel.preach_len hv hhm hr
+
+/-- **The termination laws hold for the real components** (any key table, any coefficient set; also with
+    the null-move guard). -/
+theorem real_fuelLaws_hold (K : Keys) (cs : Eval.CoeffSet Int) : FuelLaws (realCompWith K cs) RealGood muReal :=
+  real_fuelLaws_with K cs
+theorem real_fuelLaws_guarded (K : Keys) (cs : Eval.CoeffSet Int) : FuelLaws (realCompG K cs) RealGood muReal :=
+  real_fuelLaws K cs
+
+/-- **`alphaBeta` of the real search terminates**: at `ply` with `fuel ≥ 112 - ply` nothing in the subtree
+    runs out of fuel — every key table, valid board, admissible persistent state, depth, window, node
+    type, limits and point of abort.  No hypothesis on the run. -/
+theorem alphaBeta_terminates_real (K : Keys) (L : Limits) (fuel : Nat) (alpha beta : Score) (d ply : Int) (nt : NodeType)
+    (s : St PS) (hv : Board.valid s.board = true) (hok : PSok s.ps) (h0 : 0 ≤ ply) (h63 : ply ≤ 63)
+    (hfu : 112 - ply ≤ (fuel : Int)) (hfo : s.fuelOut = false) :
+    (alphaBeta (realComp K) L fuel alpha beta d ply nt s).2.fuelOut = false :=
+  Props.C06fuel.alphaBeta_terminates (realComp K) L (realComp_laws K) (real_fuelLaws_with K _) fuel alpha beta d ply nt s
+    hv hok h0 h63 hfu hfo
+
+/-- **`quiescence` of the real search terminates** with 49 units of fuel. -/
+theorem quiescence_terminates_real (K : Keys) (L : Limits) (fuel : Nat) (hfu : 49 ≤ fuel) (alpha beta : Score) (ply : Int)
+    (s : St PS) (hv : Board.valid s.board = true) (hok : PSok s.ps) (hfo : s.fuelOut = false) :
+    (quiescence (realComp K) L fuel alpha beta ply s).2.fuelOut = false :=
+  Props.C06fuel.quiescence_terminates_49 (realComp K) L (realComp_laws K) (real_fuelLaws_with K _) fuel hfu alpha beta ply s
+    hv hok hfo
+
+/-- **`Go` of the real search terminates**: with `fuel ≥ 112` the run never runs out of fuel — every key
+    table, request (limits, clock, caller counter), valid root and engine state with sound tables — as
+    long as no out-of-band value was handed to a table store in the run (`ttOut = false`, as in the other
+    `…_real` theorems). -/
+theorem go_fuel_suffices_real (K : Keys) (L : Limits) (clock : Clock) (fuel : Nat) (hfu : goFuel ≤ fuel) (e : Engine PS)
+    (b : Board) (hv : Board.valid b = true) (nodes0 : Int) (htt : TTokReal e.ps)
+    (hA : (go (realComp K) L clock fuel e b nodes0).st.ttOut = false) :
+    (go (realComp K) L clock fuel e b nodes0).st.fuelOut = false :=
+  Props.C06fuel.go_fuel_suffices (realComp K) L clock (realComp_laws K) (real_scoreLaws_with K _) (real_aspLaws_with K _)
+    (real_fuelLaws_with K _) fuel hfu e b hv nodes0 htt hA
+
+/-- … for every engine state of a session in which no search stored an out-of-band value. -/
+theorem go_fuel_suffices_session (K : Keys) (L : Limits) (clock : Clock) (fuel : Nat) (hfu : goFuel ≤ fuel) (e : Engine PS)
+    (b : Board) (hv : Board.valid b = true) (nodes0 : Int) (hs : SessionS K e)
+    (hA : (go (realComp K) L clock fuel e b nodes0).st.ttOut = false) :
+    (go (realComp K) L clock fuel e b nodes0).st.fuelOut = false :=
+  go_fuel_suffices_real K L clock fuel hfu e b hv nodes0 (sessionS_ok hs) hA
+
+/-- … and for the engine with the null-move guard there is no hypothesis on the run at all. -/
+theorem go_fuel_suffices_guarded (K : Keys) (L : Limits) (clock : Clock) (fuel : Nat) (hfu : goFuel ≤ fuel) (e : Engine PS)
+    (b : Board) (hv : Board.valid b = true) (nodes0 : Int) (hd : 1 ≤ L.depth) (htt : TTokReal e.ps) :
+    (go (realCompG K Eval.shipped) L clock fuel e b nodes0).st.fuelOut = false :=
+  Props.C06fuel.go_fuel_suffices_floor (realCompG K Eval.shipped) (nmpFloor_realCompG K _) L clock (realCompG_laws K _)
+    (real_scoreLaws K _) (real_aspLaws K _) (real_fuelLaws K _) fuel hfu e b hv nodes0 hd htt
+
+/-- **the depth laws hold for the real reductions**: `lmr = Clamp(…, 0, d-1) ≥ 0`, `nmpDepth = max(d - red, 0)`
+    with `red ≥ NMPInit = 4` lies in `[0, d)`, internal iterative reduction needs `d > IIRDepthLimit = 5`. -/
+theorem real_depthLaws_hold (K : Keys) (cs : Eval.CoeffSet Int) : DepthLaws (realCompWith K cs) := real_depthLaws_with K cs
+theorem real_depthLaws_guarded (K : Keys) (cs : Eval.CoeffSet Int) : DepthLaws (realCompG K cs) := real_depthLaws K cs
+
+/-- **depth-sensitive form**: a node of the real search entered with depth `0 ≤ d ≤ 64` needs `d + 49` units
+    of fuel, at whatever ply: every recursive call has a depth in `[0, d - 1]`, so below the node there are
+    at most `d` nested `alphaBeta` levels and 49 quiescence levels.  No hypothesis on the run. -/
+theorem alphaBeta_terminates_depth_real (K : Keys) (L : Limits) (fuel : Nat) (alpha beta : Score) (d ply : Int)
+    (nt : NodeType) (s : St PS) (hv : Board.valid s.board = true) (hok : PSok s.ps) (h0 : 0 ≤ ply) (h63 : ply ≤ 63)
+    (hd0 : 0 ≤ d) (hd64 : d ≤ 64) (hfu : d + 49 ≤ (fuel : Int)) (hfo : s.fuelOut = false) :
+    (alphaBeta (realComp K) L fuel alpha beta d ply nt s).2.fuelOut = false :=
+  Props.C06fuel.alphaBeta_terminates_depth (realComp K) L (realComp_laws K) (real_fuelLaws_with K _)
+    (real_depthLaws_with K _) fuel alpha beta d ply nt s hv hok h0 h63 hd0 hd64 hfu hfo
+
+/-- … and a request with depth limit `D` needs `goFuelD L = min D 63 + 49` units (112 in ponder mode):
+    `go depth 1` 50, `go depth 64` / `go infinite` 112. -/
+theorem go_fuel_suffices_depth_real (K : Keys) (L : Limits) (clock : Clock) (fuel : Nat) (hfu : goFuelD L ≤ fuel)
+    (e : Engine PS) (b : Board) (hv : Board.valid b = true) (nodes0 : Int) (htt : TTokReal e.ps)
+    (hA : (go (realComp K) L clock fuel e b nodes0).st.ttOut = false) :
+    (go (realComp K) L clock fuel e b nodes0).st.fuelOut = false :=
+  Props.C06fuel.go_fuel_suffices_depth (realComp K) L clock (realComp_laws K) (real_scoreLaws_with K _)
+    (real_aspLaws_with K _) (real_fuelLaws_with K _) (real_depthLaws_with K _) fuel hfu e b hv nodes0 htt hA
+
+/-- A real search without stop channel and hard node budget runs to completion: the abort flag is never
+    raised. -/
+theorem go_completes_real (K : Keys) (L : Limits) (clock : Clock) (fuel : Nat) (hfu : goFuel ≤ fuel) (e : Engine PS)
+    (b : Board) (hv : Board.valid b = true) (nodes0 : Int) (htt : TTokReal e.ps) (hstop : L.stop = none)
+    (hnodes : L.nodes = -1) (hA : (go (realComp K) L clock fuel e b nodes0).st.ttOut = false) :
+    (go (realComp K) L clock fuel e b nodes0).st.aborted = false :=
+  Props.C06fuel.go_completes (realComp K) L clock (realComp_laws K) (real_scoreLaws_with K _) (real_aspLaws_with K _)
+    (real_fuelLaws_with K _) fuel hfu e b hv nodes0 htt hstop hnodes hA
+
+/-- The last clause of C06 with "runs to completion" spelled out and NO `fuelOut` hypothesis: no stop
+    channel, no hard budget, `fuel ≥ 112` — on a final root the real search returns the null move with
+    score 0, or with the mated score `-Inf` for a checkmated root. -/
+theorem go_final_score_completed_real (K : Keys) (L : Limits) (clock : Clock) (fuel : Nat) (hfu : goFuel ≤ fuel)
+    (e : Engine PS) (b : Board) (hv : Board.valid b = true) (nodes0 : Int) (hd : 1 ≤ L.depth) (htt : TTokReal e.ps)
+    (hstop : L.stop = none) (hnodes : L.nodes = -1)
+    (hA : (go (realComp K) L clock fuel e b nodes0).st.ttOut = false)
+    (hfin : Rules.legalMoves (Board.abs b) = [] ∨ b.fifty ≥ 100 ∨ b.threefold ≥ 3) :
+    (go (realComp K) L clock fuel e b nodes0).move = 0 ∧
+      ((go (realComp K) L clock fuel e b nodes0).score = 0 ∨
+        (b.inCheck b.stm = true ∧ Rules.legalMoves (Board.abs b) = [] ∧
+          (go (realComp K) L clock fuel e b nodes0).score = -Inf)) :=
+  go_final_score_real K L clock fuel e b hv nodes0 hd htt hA hfin
+    (go_completes_real K L clock fuel hfu e b hv nodes0 htt hstop hnodes hA)
+
+/-- the former partial statement of the null-move clause with its `fuelOut` hypothesis discharged (kept
+    for comparison; `go_null_only_if_final_real` needs neither `fuelOut` nor `anomaly`). -/
+theorem go_null_only_if_final_partial_real_fuel (K : Keys) (L : Limits) (clock : Clock) (fuel : Nat) (hfu : goFuel ≤ fuel)
+    (e : Engine PS) (b : Board) (hv : Board.valid b = true) (nodes0 : Int) (hd : 1 ≤ L.depth) (htt : TTokReal e.ps)
+    (hA : (go (realComp K) L clock fuel e b nodes0).st.ttOut = false)
+    (hanom : (go (realComp K) L clock fuel e b nodes0).st.anomaly = false)
+    (hnull : (go (realComp K) L clock fuel e b nodes0).move = 0) :
+    Rules.legalMoves (Board.abs b) = [] ∨ b.fifty ≥ 100 ∨ b.threefold ≥ 3 :=
+  go_null_only_if_final_partial_real K L clock fuel e b hv htt.1 nodes0 hd
+    (go_fuel_suffices_real K L clock fuel hfu e b hv nodes0 htt hA) hanom hnull
+
+/-- non-vacuity: the node-level theorem applies to the state `Go` starts from on the start position with
+    a fresh engine (any depth, e.g. 64) … -/
+example (K : Keys) (L : Limits) (a b : Score) (d : Int) :
+    (alphaBeta (realComp K) L 112 a b d 0 .pv (goInit L (newEngine 1024) start 0)).2.fuelOut = false :=
+  alphaBeta_terminates_real K L 112 a b d 0 .pv _ start_valid (newEngine_ok 1024) (Int.le_refl 0) (by decide) (by decide) rfl
+
+/-- … the driver-level theorem to every `go depth N` (N ≥ 1) of the guarded engine on it, without any
+    hypothesis on the run … -/
+example (K : Keys) (L : Limits) (clock : Clock) (hd : 1 ≤ L.depth) :
+    (go (realCompG K Eval.shipped) L clock 112 (newEngine 1024) start).st.fuelOut = false :=
+  go_fuel_suffices_guarded K L clock 112 (by decide) _ start start_valid 0 hd (ttokReal_new 1024)
+
+/-- … and the bound is the same for every depth limit: `goFuel = 112`, for `L.depth = 64` too. -/
+example : goFuel = 112 := rfl
 
 end ChessVerif.Props.C06real
